@@ -288,9 +288,9 @@ func runC02(c *core.Ctx) {
 
 func init() {
 	register(&Prop{ID: "C02", Level: "exploration",
-		Rule: "seeded random histories of edits/add/rm/restore/reset/branch/switch ending in or interleaved with `commit -m`; name sets from the C02 quantifier (nested dirs, spaces, dots, dashes, plus, parentheses, non-ASCII, dir next to dir.go / dir-old); every successful commit is decoded independently and compared with the pre-state (tip, new objects, snapshot == staged set, blob bytes == bytes at staging time, parent, frame, identity, message); distinct = (shape of staged name set, has-parent) among successful commits",
-		Mons:  func() []core.Monitor { return []core.Monitor{C02Mon{}} },
-		Run:   runC02,
+		Rule:   "seeded random histories of edits/add/rm/restore/reset/branch/switch ending in or interleaved with `commit -m`; name sets from the C02 quantifier (nested dirs, spaces, dots, dashes, plus, parentheses, non-ASCII, dir next to dir.go / dir-old); every successful commit is decoded independently and compared with the pre-state (tip, new objects, snapshot == staged set, blob bytes == bytes at staging time, parent, frame, identity, message); distinct = (shape of staged name set, has-parent) among successful commits",
+		Mons:   func() []core.Monitor { return []core.Monitor{C02Mon{}} },
+		Run:    runC02,
 		Floors: []core.Floor{{Key: "C02.commit-attempts", Min: 400}, {Key: "C02.snapshot-eq-index", Min: 200}},
 	})
 }
